@@ -73,6 +73,9 @@ class VGen:
                 name = self.fresh("Enum")
                 vals = [self.fresh("ev") for _ in range(r.randint(2, 4))]
                 d = {"k": "enum", "name": name, "values": vals, "default": self.pick([None, 0, len(vals) - 1])}
+                if self.feature("enum-self-qualified", 0.2):
+                    # values and default written with the name of their own type in front (Color#Red): the same values
+                    d["qualified"] = self.pick([["default"], ["default", 0], [0, len(vals) - 1], list(range(len(vals))) + ["default"]])
                 enums.append(d)
             elif k == "alias" and enums:
                 base = self.pick(enums)
@@ -534,8 +537,10 @@ def render_stmts(stmts, ind=1):
 def render_decl(d):
     k = d["k"]
     if k == "enum":
-        dflt = " := %s" % d["values"][d["default"]] if d.get("default") is not None else ""
-        return "TYPE\n  %s : (%s)%s;\nEND_TYPE" % (d["name"], ", ".join(d["values"]), dflt)
+        q = d.get("qualified", [])
+        dflt = " := %s%s" % (d["name"] + "#" if "default" in q else "", d["values"][d["default"]]) if d.get("default") is not None else ""
+        vals = [(d["name"] + "#" if j in q and j < d.get("n_own", len(d["values"])) else "") + v for j, v in enumerate(d["values"])]
+        return "TYPE\n  %s : (%s)%s;\nEND_TYPE" % (d["name"], ", ".join(vals), dflt)
     if k == "alias":
         return "TYPE\n  %s : %s;\nEND_TYPE" % (d["name"], d["base"])
     if k == "subrange":
@@ -716,6 +721,16 @@ def plant_all(decls):
             v0 = d["values"][0]
             m[i]["values"] += [v0.upper(), v0.swapcase(), v0]
             yield "P0005", "type-enum-repeated", m, [v0]
+            # the same value once plainly and once with the type's name in front, in both orders
+            m = copy.deepcopy(decls)
+            m[i]["n_own"] = len(d["values"])
+            m[i]["values"].append("%s#%s" % (d["name"], d["values"][0]))
+            yield "P0005", "type-enum-qualified-duplicate", m, [d["values"][0], d["name"]]
+            m = copy.deepcopy(decls)
+            m[i]["n_own"] = len(d["values"])
+            m[i]["qualified"] = [len(d["values"]) - 1]
+            m[i]["values"].append(d["values"][-1])
+            yield "P0005", "type-enum-duplicate-of-qualified", m, [d["values"][-1], d["name"]]
         if k == "config":
             for j, p in enumerate(d["programs"]):
                 m = copy.deepcopy(decls)
@@ -785,6 +800,16 @@ def plant_all(decls):
                     vv["qual"] = "CONSTANT"
                     m[i]["vars"].append(vv)
                     yield "P0017", "%s:%s" % (k, pos), m, [v["name"]]
+                    fbd = [x for x in decls if x["k"] == "fb" and x["name"] == v.get("fb")]
+                    ins = [x for x in fbd[0]["vars"] if x["class"] == "VAR_INPUT" and x["kind"] == "elem"] if fbd else []
+                    if ins:
+                        # ... and the same with initial values for the instance's inputs
+                        m = copy.deepcopy(decls)
+                        vv = m[i]["vars"].pop(j)
+                        vv["qual"] = "CONSTANT"
+                        vv["init"] = "(%s := 1)" % ins[0]["name"]
+                        m[i]["vars"].append(vv)
+                        yield "P0017", "%s:%s:with-initial-values" % (k, pos), m, [v["name"]]
                 if v["class"] == "VAR_EXTERNAL" and v["qual"] == "CONSTANT":
                     m = copy.deepcopy(decls)
                     vv = m[i]["vars"].pop(j)
